@@ -21,7 +21,7 @@ def plan(tier, units, leaves):
         cands.append((t, f"decltype({model.spell(t, 'unit', units)})"))
     pairs = []
     iid = 1
-    npairs = 90 if tier == "quick" else 1200
+    npairs = 140 if tier == "quick" else 1200
     special = [(("leaf", "Hertz"), "au::Hertz", ("leaf", "Seconds"), "au::Seconds"), (("leaf", "Meters"), "au::Meters", ("leaf", "Meters"), "au::Meters"),
                (("leaf", "Hertz"), "au::Hertz", ("prefix", "Milli", ("leaf", "Seconds")), "au::Milli<au::Seconds>"), (("leaf", "Percent"), "au::Percent", ("leaf", "Percent"), "au::Percent"),
                (("leaf", "Radians"), "au::Radians", ("leaf", "Radians"), "au::Radians"), (("leaf", "Feet"), "au::Feet", ("leaf", "Inches"), "au::Inches"),
@@ -45,7 +45,7 @@ def plan(tier, units, leaves):
         equiv = e1.dm_key() == e2.dm_key()
         p["plain"] = equiv or not (p["r1"] in INTEGRAL and p["r2"] in INTEGRAL)
     pows = []
-    for k in range(24 if tier == "quick" else 200):
+    for k in range(36 if tier == "quick" else 200):
         t, s = rnd.choice(cands)
         pows.append({"id": iid, "t": t, "s": s, "r": rnd.choice(REPS)})
         iid += 1
